@@ -132,6 +132,15 @@ Definition write_many_rf (c : logcfg) (lens : list N) (d : dir) : dir :=
   if lmax_size c <=? cur_size c d0 then d0
   else dappend (cur_name c) (total_bytes lens) (open_file c d0).
 
+(* the same call in a directory that holds an entry whose metadata() FAILS (dangling symbolic link,
+   link loop, entry deleted between read_dir and stat): get_log_files returns the error AFTER the
+   rename, archive_file()? and roll_if_needed()? pass it on: the current file has been archived,
+   nothing is trimmed, no new current file is created, nothing is appended *)
+Definition write_many_lf (c : logcfg) (ts : bytes) (lens : list N) (d : dir) : dir :=
+  let d0 := open_file c d in
+  if lmax_size c <=? cur_size c d0 then drename (cur_name c) (arch_name c ts) d0
+  else dappend (cur_name c) (total_bytes lens) (open_file c d0).
+
 (* write(level, message): the line is the 34-byte header followed by the message *)
 Definition write_msg (c : logcfg) (ts : bytes) (len : N) (d : dir) : dir :=
   write_many c ts [Consts.log_header_len + len] d.
@@ -164,7 +173,9 @@ Definition write_all (maxc : N) (ts : bytes) (sz : N) (d : dir) : dir :=
 Inductive op :=
 | OWrite (c : logcfg) (ts : bytes) (lens : list N)   (* write_many / write by logger c *)
 | OWriteRF (c : logcfg) (lens : list N)              (* the same in an environment where the rename fails *)
-| ODump (maxc : N) (ts : bytes) (sz : N).             (* write_all *)
+| OWriteLF (c : logcfg) (ts : bytes) (lens : list N) (* the same where listing the directory fails *)
+| ODump (maxc : N) (ts : bytes) (sz : N)              (* write_all *)
+| ODumpLF.                                            (* write_all where search_files fails: logged, nothing written *)
 (* a restart is not an operation of the model: RollingLogger and write_all keep no state in
    memory, every call re-reads the directory *)
 
@@ -172,7 +183,9 @@ Definition step (d : dir) (o : op) : dir :=
   match o with
   | OWrite c ts lens => write_many c ts lens d
   | OWriteRF c lens => write_many_rf c lens d
+  | OWriteLF c ts lens => write_many_lf c ts lens d
   | ODump maxc ts sz => write_all maxc ts sz d
+  | ODumpLF => d
   end.
 
 Definition run (d : dir) (ops : list op) : dir := fold_left step ops d.
@@ -210,6 +223,12 @@ Definition ev_flush (cap : N) (ts : bytes) (s : evstate) : evstate :=
   else if cap <=? N.of_nat (length (evdir s)) then {| evdir := evdir s; evq := 0; evphase := evphase s |}
   else {| evdir := dput (ts ++ ev_ext) (evq s) 0 (evdir s); evq := 0; evphase := evphase s |}.
 
+(* the same flush when get_files(dir) FAILS (an entry that cannot be stat()-ed): the Err arm only logs
+   a warning and falls through to the write -- the cap is not consulted *)
+Definition ev_flush_lf (ts : bytes) (s : evstate) : evstate :=
+  if evq s =? 0 then s
+  else {| evdir := dput (ts ++ ev_ext) (evq s) 0 (evdir s); evq := 0; evphase := evphase s |}.
+
 (* one loop iteration after the sleep.  When SHUT_DOWN is set the queue is closed first, the
    iteration then runs as usual (same cap check) and the loop leaves at its next is_closed() test *)
 Definition ev_tick (cap : N) (ts : bytes) (s : evstate) : evstate :=
@@ -218,6 +237,14 @@ Definition ev_tick (cap : N) (ts : bytes) (s : evstate) : evstate :=
   | Running => ev_flush cap ts s
   | StopRequested =>
       let s' := ev_flush cap ts s in {| evdir := evdir s'; evq := evq s'; evphase := Done |}
+  end.
+
+Definition ev_tick_lf (ts : bytes) (s : evstate) : evstate :=
+  match evphase s with
+  | Done => s
+  | Running => ev_flush_lf ts s
+  | StopRequested =>
+      let s' := ev_flush_lf ts s in {| evdir := evdir s'; evq := evq s'; evphase := Done |}
   end.
 
 Definition ev_stop (s : evstate) : evstate :=
@@ -229,6 +256,7 @@ Definition ev_stop (s : evstate) : evstate :=
 Inductive evop :=
 | EPush (n : N)          (* n calls of write_event *)
 | ETick (ts : bytes)     (* one loop iteration *)
+| ETickLF (ts : bytes)   (* one loop iteration in a directory whose listing fails *)
 | EStop                  (* event_logger::stop() *)
 | ERestart.              (* process restart: the queue is lost, the directory stays *)
 
@@ -236,6 +264,7 @@ Definition ev_step (cap : N) (s : evstate) (o : evop) : evstate :=
   match o with
   | EPush n => N.iter n ev_push1 s
   | ETick ts => ev_tick cap ts s
+  | ETickLF ts => ev_tick_lf ts s
   | EStop => ev_stop s
   | ERestart => {| evdir := evdir s; evq := 0; evphase := Running |}
   end.
@@ -245,6 +274,11 @@ Fixpoint ev_trace (cap : N) (s : evstate) (ops : list evop) : list evstate :=
   | [] => []
   | o :: t => let s' := ev_step cap s o in s' :: ev_trace cap s' t
   end.
+
+(* Config::get_max_event_file_count: the configured maxEventFileCount, the default when absent;
+   provision::start_event_threads passes it to event_logger::start as the cap *)
+Definition configured_cap (o : option N) : N :=
+  match o with Some n => n | None => Consts.default_max_event_file_count end.
 
 (* ---------------------------------------------------------------------------------------- *)
 (* what the checks evaluate                                                                  *)
